@@ -23,6 +23,19 @@ from .world import HarnessError
 
 PROP = 'C13'
 
+AMBIENT_NOISE = {
+    'TERM': ['dumb', 'xterm-256color', 'screen', ''],
+    'NO_COLOR': ['1', ''], 'COLORTERM': ['truecolor'],
+    'CLICOLOR': ['0', '1'], 'CLICOLOR_FORCE': ['1'],
+    'COLUMNS': ['40', '200'], 'LINES': ['24'],
+    'USER': ['alice', 'root'], 'LOGNAME': ['alice'], 'SHELL': ['/bin/zsh'],
+    'TZ': ['UTC', 'Asia/Tokyo'], 'EDITOR': ['vi'], 'PAGER': ['less'],
+    'CI': ['true'], 'SHLVL': ['3'], 'OLDPWD': ['/tmp'], 'PWD': ['/'],
+    'DISPLAY': [':0'], 'XDG_RUNTIME_DIR': ['/run/user/1000'],
+    'SSH_TTY': ['/dev/pts/3'], 'HOSTNAME': ['buildbox'],
+    'PYTHONUNBUFFERED': ['1'], 'PYTHONWARNINGS': ['ignore'],
+}
+
 FORMS = ['src:abs', 'src:rel', 'build:abs', 'build:rel', 'root:into-rel',
          'root:into-abs', 'root:into-dotslash', 'src:9k', 'elsewhere:into']
 
@@ -130,6 +143,11 @@ def run_case(seed, root, params=None):
         for j in range(rng.randint(0, 3)):
             noise['BFGSIM_NOISE_{}'.format(rng.randrange(100))] = \
                 rng.choice(['1', 'x y', '$HOME', '-O3', ''])
+        # variables every shell/terminal/CI sets differently and that no
+        # documentation ties to the generated build files
+        for k, vals in AMBIENT_NOISE.items():
+            if rng.random() < 0.2:
+                noise[k] = rng.choice(vals)
         variants.append((
             rng.choice(FORMS),
             rng.choice(['0', '1', '2', str(rng.randrange(1, 2**31))]),
